@@ -91,6 +91,13 @@ type MorassPlan struct {
 	// cycle reports an error the caller goes on pulling until io.EOF - it
 	// has drained the sorter - and the residue clauses are checked.
 	DrainOn bool `json:"drain_on,omitempty"`
+	// NoHB: the case is about size, not schedules: the happens-before
+	// monitor is off (it costs a shadow word per element touched).
+	NoHB bool `json:"no_hb,omitempty"`
+	// Parallel: two callers on different goroutines each build a sorter of
+	// their own (element types new to the process, if any are left) and run
+	// the history on it: independent sorters must not interfere.
+	Parallel bool `json:"parallel,omitempty"`
 }
 
 const morassWriterSite = "morass.go:"
@@ -573,7 +580,17 @@ func runMorass(t *testing.T, c *Case, o RunOpts) *Result {
 	obs := &morassObs{}
 	// the happens-before monitor is on wherever there is a second goroutine
 	// (a sequential-mode sorter has none)
-	res := execSim(t, c, o, 6000+200*total, !pl.Concurrent && c.Prop != "C12", func(sim *simrt.Sim) func() {
+	res := execSim(t, c, o, 6000+200*total, pl.NoHB || (!pl.Concurrent && c.Prop != "C12"), func(sim *simrt.Sim) func() {
+		if pl.Parallel {
+			for i := 0; i < 2; i++ {
+				o := obs
+				if i > 0 {
+					o = &morassObs{}
+				}
+				sim.Client(fmt.Sprintf("caller%d", i), func() { morassClient(sim, &pl, o, 0) })
+			}
+			return nil
+		}
 		sim.Client("caller", func() {
 			if pl.Twin {
 				// the same history on two sorters over look-alike element types
